@@ -660,4 +660,687 @@ theorem planUnlink_rv {s s' : State} {frm : Addr} {id : Nat} {node : Addr}
   obtain ⟨p, _, _, _, rfl⟩ := h
   exact RV.of_view (s := s) rfl hi
 
+/-! ### subscription creation -/
+
+theorem setAllocation_rv {s : State} {a : Alloc} (hi : RV s) : RV (setAllocation s a) := RV.of_view (s := s) rfl hi
+
+theorem insertSub_rv {s : State} {sub : Sub} (hi : RV s) : RV (insertSub s sub) := RV.of_view (rview_insertSub s sub) hi
+
+theorem insertPayout_rv {s : State} {p : Payout} (hi : RV s) : RV (insertPayout s p) := RV.of_view (s := s) rfl hi
+
+theorem subToPending_rv {s : State} {sub : Sub} {d : Dur} (hi : RV s) : RV (subToPending s sub d).1 :=
+  RV.of_view (s := s) rfl hi
+
+theorem createNodeSubGB_rv {s : State} {acc node : Addr} {n : Node} {gb : Int} {denom : Denom} {r : State × Sub}
+    (h : createNodeSubGB s acc node n gb denom = .ok r) (ha : AOK acc) (hi : RV s) : RV r.1 := by
+  unfold createNodeSubGB at h
+  simp only [bind_eq_ok, pure_eq_ok, orReject_eq_ok] at h
+  obtain ⟨price, _, bytes, _, amt, _, dep, hdep, s1, h1, granted, _, rfl⟩ := h
+  obtain ⟨_, hd, h0⟩ := newCoin_facts hdep
+  have i1 := addDeposit_rv h1 hi ha hd h0
+  exact emit_rv _ (setAllocation_rv (insertSub_rv i1))
+
+theorem createNodeSubHr_rv {s : State} {acc node : Addr} {n : Node} {hr : Int} {denom : Denom} {r : State × Sub}
+    (h : createNodeSubHr s acc node n hr denom = .ok r) (ha : AOK acc) (hi : RV s) : RV r.1 := by
+  unfold createNodeSubHr at h
+  simp only [bind_eq_ok, pure_eq_ok, orReject_eq_ok] at h
+  obtain ⟨price, _, amt, _, dep, hdep, s1, h1, pa, _, hourly, _, rfl⟩ := h
+  obtain ⟨_, hd, h0⟩ := newCoin_facts hdep
+  have i1 := addDeposit_rv h1 hi ha hd h0
+  exact insertPayout_rv (insertSub_rv i1)
+
+theorem nodeSubscribe_rv {s s' : State} {frm node : Addr} {gb hr : Int} {denom : Denom}
+    (h : nodeSubscribe s frm node gb hr denom = .ok s') (ha : AOK frm) (hi : RV s) : RV s' := by
+  unfold nodeSubscribe createSubscriptionForNode at h
+  simp only [bind_eq_ok, pure_eq_ok, require_eq_ok, orReject_eq_ok] at h
+  obtain ⟨_, _, _, _, r, ⟨n, hn, _, _, hr'⟩, rfl⟩ := h
+  refine emit_rv _ ?_
+  split at hr'
+  · exact createNodeSubGB_rv hr' ha hi
+  · exact createNodeSubHr_rv hr' ha hi
+
+theorem planSubscribe_rv {s s' : State} {frm : Addr} {id : Nat} {denom : Denom}
+    (h : planSubscribe s frm id denom = .ok s') (hi : RV s) : RV s' := by
+  unfold planSubscribe createSubscriptionForPlan at h
+  simp only [bind_eq_ok, pure_eq_ok, require_eq_ok, requireP_eq_ok, orReject_eq_ok] at h
+  obtain ⟨r, ⟨plan, hplan, _, _, price, _, reward, _, s1, h1, payAmt, _, _, _, s2, h2, granted, _, rfl⟩, rfl⟩ := h
+  have i2 := RV.of_bf ((sendCoinFromAccountToModule_bf h1).trans (sendCoin_bf h2)) hi
+  exact emit_rv _ (emit_rv _ (setAllocation_rv (insertSub_rv (emit_rv _ i2))))
+
+/-! ### subscription and session messages -/
+
+theorem subCancel_rv {s s' : State} {frm : Addr} {id : Nat} (h : subCancel s frm id = .ok s') (hi : RV s) : RV s' := by
+  unfold subCancel at h
+  simp only [bind_eq_ok, require_eq_ok, orReject_eq_ok] at h
+  obtain ⟨sub, hsub, _, _, _, _, s1, h1, h2⟩ := h
+  have i0 : RV { s with subQ := s.subQ.erase (sub.inactiveAt, sub.id) } := RV.of_view (s := s) rfl hi
+  have i1 := subscriptionInactivePendingHook_rv h1 i0
+  exact RV.of_view (detachPayout_rview h2) (subToPending_rv i1)
+
+theorem subAllocate_rv {s s' : State} {frm toA : Addr} {id : Nat} {bytes : Int}
+    (h : subAllocate s frm id toA bytes = .ok s') (hi : RV s) : RV s' := by
+  unfold subAllocate at h
+  simp only [bind_eq_ok, pure_eq_ok, require_eq_ok, orReject_eq_ok] at h
+  obtain ⟨sub, hsub, _, _, _, _, fa, hfa, _, _, g, _, u, _, av, _, _, _, fg, _, _, _, _, _, rfl⟩ := h
+  have i1 : RV (if (s.allocs.get (id, toA)).isNone then { s with subForAcc := s.subForAcc.set (toA, id) () } else s) := by
+    split
+    · exact RV.of_view (s := s) rfl hi
+    · exact hi
+  exact emit_rv _ (setAllocation_rv (emit_rv _ (setAllocation_rv i1)))
+
+theorem sessStart_rv {s s' : State} {frm : TextAddr} {id : Nat} {node : Addr}
+    (h : sessStart s frm id node = .ok s') (hf : AOK frm.bytes) (hid : ¬ id = 0) (hnode : AOK node) (hi : RV s) : RV s' := by
+  unfold sessStart at h
+  simp only [bind_eq_ok, pure_eq_ok, require_eq_ok, orReject_eq_ok] at h
+  obtain ⟨sub, hsub, _, _, n, hn, _, _, _, _, _, _, latest, _, _, _, rfl⟩ := h
+  refine emit_rv _ ?_
+  constructor
+  case sessions =>
+    refine hi.sessions.set ?_
+    unfold SessV
+    rw [sess_valid_iff]
+    exact ⟨by simp, hid, hnode.1, hnode, hf.1, hf, ⟨Int.le_refl _, Int.le_refl _⟩, Int.le_refl _,
+      hi.time_add_ne hi.sessDelay_pos, Or.inl rfl, hi.time_ne⟩
+  rv_rest hi
+
+theorem sessUpdate_rv {s s' : State} {frm : Addr} {id : Nat} {up down dur : Int} {sig : SigSpec}
+    (h : sessUpdate s frm id up down dur sig = .ok s') (hud : 0 ≤ up ∧ 0 ≤ down) (hdur : 0 ≤ dur) (hi : RV s) : RV s' := by
+  unfold sessUpdate at h
+  simp only [bind_eq_ok, pure_eq_ok, require_eq_ok, orReject_eq_ok] at h
+  obtain ⟨x, hx, _, _, _, _, _, _, rfl⟩ := h
+  have hv : x.validate = none := hi.sessions _ _ hx
+  have hv' : SessV x.id { x with inactiveAt := (if x.status = .StatusActive then s.time + s.params.sessDelay else x.inactiveAt),
+                                  up := up, down := down, dur := dur } := by
+    unfold SessV
+    rw [sess_valid_iff] at hv ⊢
+    obtain ⟨h1, h2, h3, h4, h5, h6, _, _, h9, h10, h11⟩ := hv
+    refine ⟨h1, h2, h3, h4, h5, h6, hud, hdur, ?_, h10, h11⟩
+    show ¬ (if x.status = .StatusActive then s.time + s.params.sessDelay else x.inactiveAt) = zeroTime
+    split
+    · exact hi.time_add_ne hi.sessDelay_pos
+    · exact h9
+  refine emit_rv _ ?_
+  by_cases hc : x.status = .StatusActive
+  · simp only [hc, ↓reduceIte] at hv' ⊢
+    constructor
+    case sessions => exact hi.sessions.set hv'
+    rv_rest hi
+  · simp only [hc, ↓reduceIte] at hv' ⊢
+    constructor
+    case sessions => exact hi.sessions.set hv'
+    rv_rest hi
+
+theorem sessEnd_rv {s s' : State} {frm : Addr} {id : Nat} (h : sessEnd s frm id = .ok s') (hi : RV s) : RV s' := by
+  unfold sessEnd at h
+  simp only [bind_eq_ok, pure_eq_ok, require_eq_ok, orReject_eq_ok] at h
+  obtain ⟨x, hx, _, _, _, _, rfl⟩ := h
+  exact sessionToPending_rv (hi.sessions _ _ hx) hi
+
+theorem swap_rv {s s' : State} {frm recv : Addr} {hash : Bytes} {amt : Int}
+    (h : swap s frm hash recv amt = .ok s') (hh : hash.length = 32) (hr : AOK recv) (hi : RV s) : RV s' := by
+  unfold swap at h
+  simp only [bind_eq_ok, pure_eq_ok, require_eq_ok] at h
+  obtain ⟨_, _, _, _, _, _, q, _, coin, hcoin, s1, h1, s2, h2, rfl⟩ := h
+  have i2 : RV s2 := RV.of_bf ((mintCoins_bf h1).trans (sendModuleToAccount_bf h2)) hi
+  refine emit_rv _ ?_
+  constructor
+  case swaps => exact i2.swaps.set ⟨rfl, hh, hr, (newCoin_facts hcoin).2.1⟩
+  case swapNodup => exact Tbl.nodup_set i2.swapNodup _ _
+  rv_rest i2
+
+/-! ### `ValidateBasic` supplies the field conditions -/
+
+theorem needAddr_aok {want : Role} {t : TextAddr} {a : Addr} (h : needAddr want t = .ok a) : AOK t.bytes := by
+  unfold needAddr at h
+  simp only [bind_eq_ok, require_eq_ok, orReject_eq_ok] at h
+  obtain ⟨_, _, hp⟩ := h
+  unfold TextAddr.parse at hp
+  split at hp
+  · cases hp
+  · rename_i hc
+    simp only [not_or, Decidable.not_not, Bool.not_eq_true] at hc
+    exact ⟨hc.2.2.1, by have := hc.2.2.2; omega⟩
+
+theorem validCoinsField_req {name : String} {c : Option Coins} {u : Unit} (h : validCoinsField name c true = .ok u) :
+    ¬ (c.getD []).length = 0 ∧ (c.getD []).isValid = true := by
+  unfold validCoinsField at h
+  cases c with
+  | none => simp [require_eq_ok] at h
+  | some cs =>
+    simp only [bind_eq_ok, require_eq_ok] at h
+    obtain ⟨_, h1, h2⟩ := h
+    exact ⟨by simpa using h1, h2⟩
+
+theorem validCoinsField_opt {name : String} {c : Option Coins} {u : Unit} (h : validCoinsField name c false = .ok u) :
+    ∀ g, c = some g → ¬ g.length = 0 ∧ g.isValid = true := by
+  intro g hg
+  subst hg
+  unfold validCoinsField at h
+  simp only [bind_eq_ok, require_eq_ok] at h
+  obtain ⟨_, h1, h2⟩ := h
+  exact ⟨by simpa using h1, h2⟩
+
+theorem validStatus_mem {i : Int} {l : List Status} {u : Unit} (h : validStatus i l = .ok u) :
+    ∃ st, statusOfInt i = some st ∧ st.IsOneOf l = true := by
+  unfold validStatus at h
+  cases hs : statusOfInt i with
+  | none => rw [hs] at h; simp [reject] at h
+  | some st =>
+    rw [hs] at h
+    simp only [require_eq_ok] at h
+    exact ⟨st, rfl, h⟩
+
+theorem handle_rv {s s' : State} {m : Msg} (h : m.handle s = .ok s') (hv : m.validateBasic = .ok ())
+    (hi : RV s) : RV s' := by
+  cases m <;> simp only [Msg.handle] at h <;> unfold Msg.validateBasic at hv <;>
+    simp only [bind_eq_ok, require_eq_ok] at hv
+  case provRegister =>
+    obtain ⟨_, ha, _, h1, _, h2, _, h3, _, h4, _, _, h6⟩ := hv
+    exact provRegister_rv h (needAddr_aok ha) ⟨by simpa using h1, by simpa using h2⟩ (by simpa using h3) (by simpa using h4)
+      (by simpa using h6) hi
+  case provUpdate =>
+    obtain ⟨_, ha, _, h2, _, h3, _, h4, _, _, _, h6, h7⟩ := hv
+    obtain ⟨st, hs, hone⟩ := validStatus_mem h7
+    refine provUpdate_rv h (by simpa using h2) (by simpa using h3) (by simpa using h4) (by simpa using h6) ?_ hi
+    rw [hs]
+    cases st <;> simp [Status.IsOneOf, Status.Equal] at hone ⊢
+  case nodeRegister =>
+    obtain ⟨_, ha, _, hg, _, hh, _, h1, _, h2, _⟩ := hv
+    exact nodeRegister_rv h (needAddr_aok ha) (validCoinsField_req hg) (validCoinsField_req hh)
+      ⟨by simpa using h1, by simpa using h2⟩ hi
+  case nodeUpdate =>
+    obtain ⟨_, ha, _, hg, _, hh, _, h1, _⟩ := hv
+    refine nodeUpdate_rv h (validCoinsField_opt hg) (validCoinsField_opt hh) ?_ hi
+    simpa using h1
+  case nodeStatus =>
+    obtain ⟨_, ha, h7⟩ := hv
+    obtain ⟨st, hs, hone⟩ := validStatus_mem h7
+    refine nodeStatus_rv h ?_ hi
+    rw [hs]
+    cases st <;> simp [Status.IsOneOf, Status.Equal] at hone ⊢
+  case nodeSubscribe =>
+    obtain ⟨_, ha, _⟩ := hv
+    exact nodeSubscribe_rv h (needAddr_aok ha) hi
+  case planCreate =>
+    obtain ⟨_, ha, _, h1, _, h2, _, h3, _, h4, h5⟩ := hv
+    exact planCreate_rv h (needAddr_aok ha) ⟨by simpa using h1, by simpa using h2⟩ ⟨by simpa using h3, by simpa using h4⟩
+      (validCoinsField_req h5) hi
+  case planStatus => exact planStatus_rv h hi
+  case planLink => exact planLink_rv h hi
+  case planUnlink => exact planUnlink_rv h hi
+  case planSubscribe => exact planSubscribe_rv h hi
+  case subCancel => exact subCancel_rv h hi
+  case subAllocate => exact subAllocate_rv h hi
+  case sessStart =>
+    obtain ⟨_, ha, _, h1, _, hn, _⟩ := hv
+    exact sessStart_rv h (needAddr_aok ha) (by simpa using h1) (needAddr_aok hn) hi
+  case sessUpdate =>
+    obtain ⟨_, ha, _, _, _, h2, _, _, _, h4, _⟩ := hv
+    exact sessUpdate_rv h (by simpa using h2) (by simpa using h4) hi
+  case sessEnd => exact sessEnd_rv h hi
+  case swap =>
+    obtain ⟨_, ha, _, hr, _, h1, _⟩ := hv
+    exact swap_rv h (by simpa using h1) (needAddr_aok hr) hi
+
+theorem deliver_rv (s : State) (m : Msg) (hi : RV s) : RV (deliver s m).1 := by
+  have h0 : RV { s with events := [] } := RV.of_view (s := s) rfl hi
+  unfold deliver
+  simp only []
+  cases hr : (do m.validateBasic; m.handle { s with events := [] } : M State) with
+  | ok s' =>
+    simp only [bind_eq_ok] at hr
+    obtain ⟨u, hv, hh⟩ := hr
+    exact handle_rv hh hv h0
+  | error e => cases e <;> exact h0
+
+/-! ### begin-block hooks -/
+
+theorem mintGo_rv (l : List Inflation) (s : State) (hi : RV s) : RV (mintBeginBlock.go s l) := by
+  induction l generalizing s with
+  | nil => unfold mintBeginBlock.go; exact hi
+  | cons item rest ih =>
+    unfold mintBeginBlock.go
+    split
+    · exact hi
+    · apply ih
+      constructor
+      case inflations => exact hi.inflations.erase
+      case inflNodup => exact Tbl.nodup_erase hi.inflNodup _
+      rv_rest hi
+
+theorem payoutStep_rv {s s' : State} {k : Time × Nat} (h : payoutStep s k = .ok s') (hi : RV s) : RV s' := by
+  unfold payoutStep at h
+  simp only [bind_eq_ok, pure_eq_ok, requireP_eq_ok, orPanic_eq_ok] at h
+  obtain ⟨item, hitem, reward, hrew, s2, h2, payAmt, _, _, hpay, s3, h3, rfl⟩ := h
+  have i1 : RV { s with payQ := s.payQ.erase (item.nextAt, item.id) } := RV.of_view (s := s) rfl hi
+  have i2 := sendCoinFromDepositToModule_rv h2 i1 (getProportion_nonneg hrew)
+  have i3 := sendCoinFromDepositToAccount_rv h3 i2 (show 0 ≤ payAmt by simpa using hpay)
+  split <;> exact RV.of_view (s := s3) rfl i3
+
+theorem beginBlock_rv {s s' : State} {t : Time} (h : beginBlock s t = .ok s') (ht : zeroTime < t) (hi : RV s) : RV s' := by
+  unfold beginBlock haltOf at h
+  split at h <;> try contradiction
+  rename_i s'' hs
+  simp only [Except.ok.injEq] at h
+  subst h
+  unfold subscriptionBeginBlock at hs
+  refine foldlM_inv RV _ ?_ _ _ _ hs ?_
+  · intro s0 k s1 h1 hp
+    rw [panicIfErr_eq_ok] at h1
+    exact payoutStep_rv h1 hp
+  · refine RV.of_bf (distrSweep_bf _) (mintGo_rv _ _ ?_)
+    constructor
+    case time => exact ht
+    rv_rest hi
+
+/-! ### end-block hooks -/
+
+theorem clampIf_isV (viol : Int → Int → Bool) {b x : Coins} (c : Bool) (hb : IsV b) (hx : IsV x ∧ x.length ≠ 0) :
+    IsV (if c = true then clampPrices viol b x else x) ∧ (if c = true then clampPrices viol b x else x).length ≠ 0 := by
+  split
+  · exact clampPrices_isV viol b hb x hx.1 hx.2
+  · exact hx
+
+theorem sweepNode_valid {p : Params} {m : Modified} {n : Node} (hv : n.validate = none)
+    (hb : IsV p.maxGB ∧ IsV p.minGB ∧ IsV p.maxHr ∧ IsV p.minHr) : (sweepNode p m n).validate = none := by
+  rw [node_valid_iff] at hv ⊢
+  obtain ⟨h1, h2, h3, h4, h5, h6, h7, h8, h9, h10⟩ := hv
+  have g1 := clampIf_isV (· < ·) m.minGB hb.2.1 (clampIf_isV (· > ·) m.maxGB hb.1 ⟨(isValid_iff _).mp h3.2, h3.1⟩)
+  have g2 := clampIf_isV (· < ·) m.minHr hb.2.2.2 (clampIf_isV (· > ·) m.maxHr hb.2.2.1 ⟨(isValid_iff _).mp h4.2, h4.1⟩)
+  exact ⟨h1, h2, ⟨g1.2, (isValid_iff _).mpr g1.1⟩, ⟨g2.2, (isValid_iff _).mpr g2.1⟩, h5, h6, h7, h8, h9, h10⟩
+
+theorem nodeSweep_rv {s s' : State} (h : nodeSweep s = .ok s') (hi : RV s) : RV s' := by
+  unfold nodeSweep at h
+  split at h
+  · rw [pure_eq_ok] at h; rw [← h]; exact hi
+  · refine foldlM_inv RV _ ?_ _ s s' h hi
+    intro s0 a s1 h1 hp
+    simp only [bind_eq_ok, pure_eq_ok, orPanic_eq_ok] at h1
+    obtain ⟨item, hitem, s2, h2, rfl⟩ := h1
+    exact emit_rv _ (setNode_rv h2 (sweepNode_valid (hp.getNode hitem) hp.bounds) hp)
+
+theorem nodeExpireStep_rv {s s' : State} {k : Time × Addr} (h : nodeExpireStep s k = .ok s') (hi : RV s) : RV s' := by
+  unfold nodeExpireStep at h
+  simp only [bind_eq_ok, pure_eq_ok, orPanic_eq_ok] at h
+  obtain ⟨item, hitem, s3, h3, rfl⟩ := h
+  have hv := hi.getNode hitem
+  refine emit_rv _ (setNode_rv h3 ?_ ?_)
+  · rw [node_valid_iff] at hv ⊢
+    obtain ⟨h1, h2, h3', h4, h5, h6, _, _, _, _⟩ := hv
+    exact ⟨h1, h2, h3', h4, h5, h6, Or.inr rfl, Or.inl rfl, Or.inr rfl, hi.time_ne⟩
+  · constructor
+    rv_rest hi
+
+theorem settleSession_rv {s s' : State} {x : Session} {acc node : Addr} {dep : Coin} {gb b a : Int}
+    (h : settleSession s x acc node dep gb b a = .ok s') (hi : RV s) : RV s' := by
+  unfold settleSession at h
+  simp only [bind_eq_ok, pure_eq_ok, requireP_eq_ok] at h
+  obtain ⟨price, _, prev, _, cur, _, payAmt, _, payment, _, reward, hrew, s1, h1, netAmt, _, _, hnet, s2, h2, rfl⟩ := h
+  have i1 := sendCoinFromDepositToModule_rv h1 hi (getProportion_nonneg hrew)
+  have i2 := sendCoinFromDepositToAccount_rv h2 i1 (show 0 ≤ netAmt by simpa using hnet)
+  exact emit_rv _ i2
+
+theorem sessionInactiveHook_rv {s s' : State} {id : Nat} {acc node : Addr} {bytes : Int}
+    (h : sessionInactiveHook s id acc node bytes = .ok s') (hi : RV s) : RV s' := by
+  unfold sessionInactiveHook at h
+  simp only [bind_eq_ok, require_eq_ok, orReject_eq_ok] at h
+  obtain ⟨x, _, _, _, sub, _, h⟩ := h
+  split at h
+  · rw [pure_eq_ok] at h; rw [← h]; exact hi
+  · simp only [bind_eq_ok, orReject_eq_ok] at h
+    obtain ⟨a, ha, used, _, h⟩ := h
+    have i1 : RV (emit (setAllocation s (allocAfterUse a used)) (evAllocate (allocAfterUse a used))) :=
+      emit_rv _ (setAllocation_rv hi)
+    split at h
+    · exact settleSession_rv h i1
+    · rw [pure_eq_ok] at h; rw [← h]; exact i1
+
+theorem removeSession_rv {s : State} {item : Session} (hi : RV s) : RV (removeSession s item) := by
+  refine emit_rv _ ?_
+  constructor
+  rv_rest hi
+
+theorem sessionStep_rv {s s' : State} {k : Time × Nat} (h : sessionStep s k = .ok s') (hi : RV s) : RV s' := by
+  unfold sessionStep at h
+  simp only [bind_eq_ok, orPanic_eq_ok] at h
+  obtain ⟨item, hitem, h⟩ := h
+  split at h
+  · rw [pure_eq_ok] at h; rw [← h]; exact sessionToPending_rv (hi.sessions _ _ hitem) hi
+  · simp only [bind_eq_ok, pure_eq_ok, panicIfErr_eq_ok] at h
+    obtain ⟨bytes, _, s2, h2, rfl⟩ := h
+    have i1 : RV { s with sessQ := s.sessQ.erase (item.inactiveAt, item.id) } := RV.of_view (s := s) rfl hi
+    exact removeSession_rv (sessionInactiveHook_rv h2 i1)
+
+theorem refundSub_rv {s s' : State} {item : Sub} (h : refundSub s item = .ok s') (hi : RV s) : RV s' := by
+  unfold refundSub at h
+  split at h
+  · simp only [bind_eq_ok] at h
+    obtain ⟨s1, h1, h2⟩ := h
+    have i1 : RV s1 := by
+      split at h1
+      · unfold refundGB at h1
+        simp only [bind_eq_ok, pure_eq_ok, orPanic_eq_ok, panicIfErr_eq_ok] at h1
+        obtain ⟨price, _, a, _, paid, _, ra, _, refund, href, s2, h2', rfl⟩ := h1
+        exact emit_rv _ (subtractDeposit_rv h2' hi (newCoin_facts href).2.2)
+      · rw [pure_eq_ok] at h1; rw [← h1]; exact hi
+    split at h2
+    · unfold refundHr at h2
+      simp only [bind_eq_ok, pure_eq_ok, orPanic_eq_ok, panicIfErr_eq_ok] at h2
+      obtain ⟨p, _, ra, _, refund, href, s2, h2', rfl⟩ := h2
+      exact emit_rv _ (subtractDeposit_rv h2' i1 (newCoin_facts href).2.2)
+    · rw [pure_eq_ok] at h2; rw [← h2]; exact i1
+  · rw [pure_eq_ok] at h; rw [← h]; exact hi
+
+theorem removeAllocs_rv (l : List Addr) (s : State) (id : Nat) (hi : RV s) : RV (removeAllocs s id l) := by
+  unfold removeAllocs
+  refine foldl_inv RV _ ?_ l s hi
+  intro s0 a h0
+  exact RV.of_view (s := s0) rfl h0
+
+theorem removeSubRecords_rv {s : State} {item : Sub} (hi : RV s) : RV (removeSubRecords s item) := by
+  unfold removeSubRecords
+  cases item.kind with
+  | node n g h d =>
+    refine emit_rv _ ?_
+    exact RV.of_view (s := s) rfl hi
+  | plan pid dn =>
+    refine emit_rv _ ?_
+    have i1 : RV { s with subForPlan := s.subForPlan.erase (pid, item.id) } := RV.of_view (s := s) rfl hi
+    have i2 := removeAllocs_rv (allocAddrsForSub { s with subForPlan := s.subForPlan.erase (pid, item.id) } item.id) _ item.id i1
+    exact RV.of_view (s := removeAllocs _ _ _) rfl i2
+
+theorem removePayout_rv {s s' : State} {item : Sub} (h : removePayout s item = .ok s') (hi : RV s) : RV s' := by
+  unfold removePayout at h
+  split at h
+  · simp only [bind_eq_ok, pure_eq_ok, orPanic_eq_ok] at h
+    obtain ⟨p, _, rfl⟩ := h
+    exact RV.of_view (s := s) rfl hi
+  · rw [pure_eq_ok] at h; rw [← h]; exact hi
+
+theorem subscriptionStep_rv {s s' : State} {d : Dur} {k : Time × Nat} (h : subscriptionStep d s k = .ok s')
+    (hi : RV s) : RV s' := by
+  unfold subscriptionStep at h
+  simp only [bind_eq_ok, orPanic_eq_ok] at h
+  obtain ⟨item, hitem, h⟩ := h
+  have i1 : RV { s with subQ := s.subQ.erase (item.inactiveAt, item.id) } := RV.of_view (s := s) rfl hi
+  split at h
+  · simp only [bind_eq_ok, panicIfErr_eq_ok] at h
+    obtain ⟨s2, h2, h3⟩ := h
+    exact RV.of_view (detachPayout_rview h3) (subToPending_rv (subscriptionInactivePendingHook_rv h2 i1))
+  · simp only [bind_eq_ok] at h
+    obtain ⟨s2, h2, h3⟩ := h
+    exact removePayout_rv h3 (removeSubRecords_rv (refundSub_rv h2 i1))
+
+theorem endBlock_rv {s s' : State} (h : endBlock s = .ok s') (hi : RV s) : RV s' := by
+  unfold endBlock haltOf at h
+  split at h <;> try contradiction
+  rename_i s2 hs
+  split at hs <;> try contradiction
+  rename_i s3 hs3
+  simp only [Except.ok.injEq] at hs h
+  subst hs; subst h
+  unfold vpnEndBlock nodeEndBlock nodeExpire sessionEndBlock subscriptionEndBlock at hs3
+  simp only [bind_eq_ok] at hs3
+  obtain ⟨s1, ⟨sa, ha, hb⟩, sb, hc, hd⟩ := hs3
+  have i0 : RV sa := nodeSweep_rv ha (RV.of_view (s := s) rfl hi)
+  have i1 : RV s1 := foldlM_inv RV _ (fun s0 k s1 h1 hp => nodeExpireStep_rv h1 hp) _ _ _ hb i0
+  have i2 : RV sb := foldlM_inv RV _ (fun s0 k s1 h1 hp => sessionStep_rv h1 hp) _ _ _ hc i1
+  have i3 : RV s3 := foldlM_inv RV _ (fun s0 k s1 h1 hp => subscriptionStep_rv h1 hp) _ _ _ hd i2
+  exact RV.of_view (s := s3) rfl i3
+
+/-! ### governance -/
+
+theorem validCoinParam_facts {c : Coin} (h : validCoinParam c = true) : c.amount ≥ 0 ∧ validDenom c.denom = true := by
+  unfold validCoinParam at h
+  simpa using h
+
+theorem validShare_facts {d : Dec} (h : validShare d = true) : d ≥ 0 ∧ d ≤ decUnit := by
+  unfold validShare at h
+  simpa using h
+
+theorem validPriceParam_facts {c : Option Coins} (h : validPriceParam c = true) : (c.getD []).isValid = true := by
+  cases c with
+  | none => rfl
+  | some cs => exact h
+
+theorem gov_rv {s s' : State} {c : ParamChange} (hg : gov s c = some s') (hi : RV s) : RV s' := by
+  obtain ⟨hp1, hp2, hp3, hp4, hp5⟩ := hi.params
+  have mk : ∀ p' : Params, ParamsV p' → ∀ m : Modified, RV { s with params := p', modified := m } := by
+    intro p' hp' m
+    constructor
+    case params => exact hp'
+    rv_rest hi
+  rw [provParams_valid_iff] at hp1
+  rw [nodeParams_valid_iff] at hp2
+  rw [subParams_valid_iff] at hp3
+  rw [sessParams_valid_iff] at hp4
+  rw [swapParams_valid_iff] at hp5
+  have back : ∀ p' : Params,
+      (0 ≤ p'.provider.deposit.amount ∧ (p'.provider.deposit.amount ≥ 0 ∧ validDenom p'.provider.deposit.denom = true) ∧
+        0 ≤ p'.provider.share ∧ p'.provider.share ≥ 0 ∧ p'.provider.share ≤ decUnit) →
+      (0 ≤ p'.node.deposit.amount ∧ (p'.node.deposit.amount ≥ 0 ∧ validDenom p'.node.deposit.denom = true) ∧ 0 < p'.node.activeDur ∧
+        p'.node.maxGB.isValid = true ∧ p'.node.minGB.isValid = true ∧ p'.node.maxHr.isValid = true ∧ p'.node.minHr.isValid = true ∧
+        0 < p'.node.maxSubGB ∧ 0 < p'.node.minSubGB ∧ 0 < p'.node.maxSubHr ∧ 0 < p'.node.minSubHr ∧ 0 ≤ p'.node.share ∧
+        p'.node.share ≥ 0 ∧ p'.node.share ≤ decUnit) →
+      (0 ≤ p'.subscription.delay ∧ ¬ p'.subscription.delay = 0) →
+      (0 ≤ p'.session.delay ∧ ¬ p'.session.delay = 0) →
+      (¬ p'.swap.denom = "" ∧ validDenom p'.swap.denom = true ∧ ¬ p'.swap.approveBy.length = 0 ∧ AOK p'.swap.approveBy) →
+      ParamsV p' := by
+    intro p' a1 a2 a3 a4 a5
+    exact ⟨(provParams_valid_iff _).mpr a1, (nodeParams_valid_iff _).mpr a2, (subParams_valid_iff _).mpr a3,
+      (sessParams_valid_iff _).mpr a4, (swapParams_valid_iff _).mpr a5⟩
+  obtain ⟨n1, n2, n3, n4, n5, n6, n7, n8, n9, n10, n11, n12, n13, n14⟩ := hp2
+  unfold gov at hg
+  cases c <;> simp only [] at hg
+  case provDeposit c =>
+    split at hg
+    · rename_i hc
+      simp only [Option.some.injEq] at hg; subst hg
+      obtain ⟨c1, c2⟩ := validCoinParam_facts hc
+      exact mk { s.params with provDeposit := c } (back { s.params with provDeposit := c } ⟨c1, ⟨c1, c2⟩, hp1.2.2⟩ ⟨n1, n2, n3, n4, n5, n6, n7, n8, n9, n10, n11, n12, n13, n14⟩ hp3 hp4 hp5) s.modified
+    · cases hg
+  case provShare d =>
+    split at hg
+    · rename_i hc
+      simp only [Option.some.injEq] at hg; subst hg
+      obtain ⟨c1, c2⟩ := validShare_facts hc
+      exact mk { s.params with provShare := d } (back { s.params with provShare := d } ⟨hp1.1, hp1.2.1, c1, c1, c2⟩ ⟨n1, n2, n3, n4, n5, n6, n7, n8, n9, n10, n11, n12, n13, n14⟩ hp3 hp4 hp5) s.modified
+    · cases hg
+  case nodeDeposit c =>
+    split at hg
+    · rename_i hc
+      simp only [Option.some.injEq] at hg; subst hg
+      obtain ⟨c1, c2⟩ := validCoinParam_facts hc
+      exact mk { s.params with nodeDeposit := c } (back { s.params with nodeDeposit := c } hp1 ⟨c1, ⟨c1, c2⟩, n3, n4, n5, n6, n7, n8, n9, n10, n11, n12, n13, n14⟩ hp3 hp4 hp5) s.modified
+    · cases hg
+  case activeDur d =>
+    split at hg
+    · rename_i hc
+      simp only [Option.some.injEq] at hg; subst hg
+      exact mk { s.params with activeDur := d } (back { s.params with activeDur := d } hp1 ⟨n1, n2, hc, n4, n5, n6, n7, n8, n9, n10, n11, n12, n13, n14⟩ hp3 hp4 hp5) s.modified
+    · cases hg
+  case maxGB c =>
+    split at hg
+    · rename_i hc
+      simp only [Option.some.injEq] at hg; subst hg
+      exact mk { s.params with maxGB := c.getD [] } (back { s.params with maxGB := c.getD [] } hp1 ⟨n1, n2, n3, validPriceParam_facts hc, n5, n6, n7, n8, n9, n10, n11, n12, n13, n14⟩ hp3 hp4 hp5) _
+    · cases hg
+  case minGB c =>
+    split at hg
+    · rename_i hc
+      simp only [Option.some.injEq] at hg; subst hg
+      exact mk { s.params with minGB := c.getD [] } (back { s.params with minGB := c.getD [] } hp1 ⟨n1, n2, n3, n4, validPriceParam_facts hc, n6, n7, n8, n9, n10, n11, n12, n13, n14⟩ hp3 hp4 hp5) _
+    · cases hg
+  case maxHr c =>
+    split at hg
+    · rename_i hc
+      simp only [Option.some.injEq] at hg; subst hg
+      exact mk { s.params with maxHr := c.getD [] } (back { s.params with maxHr := c.getD [] } hp1 ⟨n1, n2, n3, n4, n5, validPriceParam_facts hc, n7, n8, n9, n10, n11, n12, n13, n14⟩ hp3 hp4 hp5) _
+    · cases hg
+  case minHr c =>
+    split at hg
+    · rename_i hc
+      simp only [Option.some.injEq] at hg; subst hg
+      exact mk { s.params with minHr := c.getD [] } (back { s.params with minHr := c.getD [] } hp1 ⟨n1, n2, n3, n4, n5, n6, validPriceParam_facts hc, n8, n9, n10, n11, n12, n13, n14⟩ hp3 hp4 hp5) _
+    · cases hg
+  case maxSubGB i =>
+    split at hg
+    · rename_i hc
+      simp only [Option.some.injEq] at hg; subst hg
+      exact mk { s.params with maxSubGB := i } (back { s.params with maxSubGB := i } hp1 ⟨n1, n2, n3, n4, n5, n6, n7, hc, n9, n10, n11, n12, n13, n14⟩ hp3 hp4 hp5) s.modified
+    · cases hg
+  case minSubGB i =>
+    split at hg
+    · rename_i hc
+      simp only [Option.some.injEq] at hg; subst hg
+      exact mk { s.params with minSubGB := i } (back { s.params with minSubGB := i } hp1 ⟨n1, n2, n3, n4, n5, n6, n7, n8, hc, n10, n11, n12, n13, n14⟩ hp3 hp4 hp5) s.modified
+    · cases hg
+  case maxSubHr i =>
+    split at hg
+    · rename_i hc
+      simp only [Option.some.injEq] at hg; subst hg
+      exact mk { s.params with maxSubHr := i } (back { s.params with maxSubHr := i } hp1 ⟨n1, n2, n3, n4, n5, n6, n7, n8, n9, hc, n11, n12, n13, n14⟩ hp3 hp4 hp5) s.modified
+    · cases hg
+  case minSubHr i =>
+    split at hg
+    · rename_i hc
+      simp only [Option.some.injEq] at hg; subst hg
+      exact mk { s.params with minSubHr := i } (back { s.params with minSubHr := i } hp1 ⟨n1, n2, n3, n4, n5, n6, n7, n8, n9, n10, hc, n12, n13, n14⟩ hp3 hp4 hp5) s.modified
+    · cases hg
+  case nodeShare d =>
+    split at hg
+    · rename_i hc
+      simp only [Option.some.injEq] at hg; subst hg
+      obtain ⟨c1, c2⟩ := validShare_facts hc
+      exact mk { s.params with nodeShare := d } (back { s.params with nodeShare := d } hp1 ⟨n1, n2, n3, n4, n5, n6, n7, n8, n9, n10, n11, c1, c1, c2⟩ hp3 hp4 hp5) s.modified
+    · cases hg
+  case subDelay d =>
+    split at hg
+    · rename_i hc
+      simp only [Option.some.injEq] at hg; subst hg
+      have c1 : (0 : Int) ≤ d ∧ ¬ d = 0 := by
+        have hpos : (0 : Int) < d := hc
+        exact ⟨Int.le_of_lt hpos, fun e => by rw [e] at hpos; exact Int.lt_irrefl _ hpos⟩
+      exact mk { s.params with subDelay := d } (back { s.params with subDelay := d } hp1 ⟨n1, n2, n3, n4, n5, n6, n7, n8, n9, n10, n11, n12, n13, n14⟩ c1 hp4 hp5) s.modified
+    · cases hg
+  case sessDelay d =>
+    split at hg
+    · rename_i hc
+      simp only [Option.some.injEq] at hg; subst hg
+      have c1 : (0 : Int) ≤ d ∧ ¬ d = 0 := by
+        have hpos : (0 : Int) < d := hc
+        exact ⟨Int.le_of_lt hpos, fun e => by rw [e] at hpos; exact Int.lt_irrefl _ hpos⟩
+      exact mk { s.params with sessDelay := d } (back { s.params with sessDelay := d } hp1 ⟨n1, n2, n3, n4, n5, n6, n7, n8, n9, n10, n11, n12, n13, n14⟩ hp3 c1 hp5) s.modified
+    · cases hg
+  case proof b =>
+    simp only [Option.some.injEq] at hg; subst hg
+    exact mk { s.params with proof := b } (back { s.params with proof := b } hp1 ⟨n1, n2, n3, n4, n5, n6, n7, n8, n9, n10, n11, n12, n13, n14⟩ hp3 hp4 hp5) s.modified
+  case swapOn b =>
+    simp only [Option.some.injEq] at hg; subst hg
+    exact mk { s.params with swapOn := b } (back { s.params with swapOn := b } hp1 ⟨n1, n2, n3, n4, n5, n6, n7, n8, n9, n10, n11, n12, n13, n14⟩ hp3 hp4 hp5) s.modified
+  case swapDenom d =>
+    split at hg
+    · rename_i hc
+      simp only [Option.some.injEq] at hg; subst hg
+      have hne : ¬ d = "" := by
+        intro e; subst e; simp [validDenom] at hc
+      exact mk { s.params with swapDenom := d } (back { s.params with swapDenom := d } hp1 ⟨n1, n2, n3, n4, n5, n6, n7, n8, n9, n10, n11, n12, n13, n14⟩ hp3 hp4 ⟨hne, hc, hp5.2.2⟩) s.modified
+    · cases hg
+  case approveBy a =>
+    split at hg
+    · rename_i b hb
+      simp only [Option.some.injEq] at hg; subst hg
+      have hb' : AOK b := by
+        unfold TextAddr.parse at hb
+        split at hb
+        · cases hb
+        · rename_i hc
+          simp only [not_or, Decidable.not_not, Bool.not_eq_true] at hc
+          simp only [Option.some.injEq] at hb
+          subst hb
+          exact ⟨hc.2.2.1, by have := hc.2.2.2; omega⟩
+      exact mk { s.params with approveBy := b } (back { s.params with approveBy := b } hp1 ⟨n1, n2, n3, n4, n5, n6, n7, n8, n9, n10, n11, n12, n13, n14⟩ hp3 hp4 ⟨hp5.1, hp5.2.1, hb'.1, hb'⟩) s.modified
+    · cases hg
+
+/-! ### every step, every history -/
+
+/-- Block times are after Go's zero time (D4: block times lie in years 2000..3000). -/
+def TimesOK (ops : List Op) : Prop := ∀ t, Op.begin t ∈ ops → zeroTime < t
+
+theorem step_rv {s s' : State} {op : Op} (h : step s op = some s') (ht : ∀ t, op = .begin t → zeroTime < t) (hi : RV s) :
+    RV s' := by
+  cases op with
+  | tx m =>
+    simp only [step, Option.some.injEq] at h
+    rw [← h]; exact deliver_rv s m hi
+  | begin t =>
+    simp only [step] at h
+    split at h
+    · rename_i s1 hb
+      simp only [Option.some.injEq] at h; rw [← h]; exact beginBlock_rv hb (ht t rfl) hi
+    · contradiction
+  | endB =>
+    simp only [step] at h
+    split at h
+    · rename_i s1 hb
+      simp only [Option.some.injEq] at h; rw [← h]; exact endBlock_rv hb hi
+    · contradiction
+  | gov c =>
+    simp only [step, Option.some.injEq] at h
+    rw [← h]
+    cases hg : gov s c with
+    | none => exact hi
+    | some s1 => exact gov_rv hg hi
+
+/-- A genesis of the configuration domain as far as genesis validity goes: the block time is after
+Go's zero time, the five parameter sets and every scheduled inflation pass their `Validate`. (The
+`Genesis` type itself does not imply any of this: `params` and `inflations` are arbitrary values.) -/
+structure GenesisValid (g : Genesis) : Prop where
+  time : zeroTime < g.time
+  params : ParamsV g.params
+  inflations : ∀ i ∈ g.inflations, i.validate = none
+
+theorem inflations_import (l : List Inflation) (hl : ∀ i ∈ l, i.validate = none) (t0 : Tbl Time Inflation)
+    (h0 : Tbl.All InflV t0) (hn : Tbl.Nodup t0) :
+    Tbl.All InflV (l.foldl (fun t i => t.set i.ts i) t0) ∧ Tbl.Nodup (l.foldl (fun t i => t.set i.ts i) t0) := by
+  induction l generalizing t0 with
+  | nil => exact ⟨h0, hn⟩
+  | cons i rest ih =>
+    simp only [List.foldl_cons]
+    exact ih (fun x hx => hl x (List.mem_cons_of_mem _ hx)) _ (h0.set ⟨rfl, hl i (List.mem_cons_self ..)⟩) (Tbl.nodup_set hn _ _)
+
+theorem genesis_rv (g : Genesis) (hg : GenesisValid g) : RV g.state := by
+  refine RV.of_bf (genesis_bf g) ?_
+  obtain ⟨h1, h2⟩ := inflations_import g.inflations hg.inflations [] (Tbl.All.nil _) Tbl.nodup_nil
+  constructor
+  case time => exact hg.time
+  case params => exact hg.params
+  case inflations => exact h1
+  case inflNodup => exact h2
+  case planMax => exact ⟨0, rfl, Or.inl rfl⟩
+  all_goals first | exact Tbl.All.nil _ | exact Tbl.nodup_nil
+
+theorem rv_all_histories (ops : List Op) (s : State) (hi : RV s) (ht : TimesOK ops) : ∀ s' ∈ runTrace s ops, RV s' := by
+  induction ops generalizing s with
+  | nil => intro s' h; simp [runTrace] at h
+  | cons op rest ih =>
+    intro s' h
+    simp only [runTrace] at h
+    cases hst : step s op with
+    | none => simp [hst] at h
+    | some s1 =>
+      simp only [hst, List.mem_cons] at h
+      have i1 := step_rv hst (fun t e => ht t (by rw [e]; exact List.mem_cons_self ..)) hi
+      rcases h with h | h
+      · rw [h]; exact i1
+      · exact ih s1 i1 (fun t hm => ht t (List.mem_cons_of_mem _ hm)) s' h
+
+/-- **Every state of every history with block times after the zero time, from every valid genesis,
+holds only genesis-valid records and parameters.** -/
+theorem rv_of_history {g : Genesis} {ops : List Op} (hg : GenesisValid g) (ht : TimesOK ops) {s : State}
+    (hs : s = g.state ∨ s ∈ runTrace g.state ops) : RV s := by
+  rcases hs with h | h
+  · rw [h]; exact genesis_rv g hg
+  · exact rv_all_histories ops g.state (genesis_rv g hg) ht s h
+
 end Hub.Model.GenWFSteps
